@@ -167,6 +167,16 @@ def check_C15(tier_, sd, consts_ok, consts_detail):
             p.files = [("/main.txt.txtpp", main.encode()), ("/dep.txt.txtpp", b"dep\n"), ("/other.txt.txtpp", b"other must not be built\n")]
             p.inputs = ["main.txt"]; p.sched = [0] * 8
             cprojs.append(p)
+    # a directive line that directly follows another directive (it ENDS the block above and starts its own) is recognised in every mode:
+    # in clean mode its effect is visible when it is a temp directive (the file must go)
+    heads = ["-TXTPP#temp first.tmp\n-a", "-TXTPP#tag T", "-TXTPP#include plain.txt", "-TXTPP#write w\n-x", "-TXTPP#run printf y\n-z", "-TXTPP#\n-note", "-TXTPP#after plain.txt"]
+    for j, head in enumerate(heads):
+        for md in (2, 0):
+            p = Project("chain%d_%d" % (j, md))
+            main = "top\n%s\n=TXTPP#temp second.tmp\n=b\n+TXTPP#temp third.tmp\n+c\n\nT end\n" % head
+            p.files = [("/chain.txt.txtpp", main.encode()), ("/plain.txt", b"plain\n"), ("/first.tmp", b"old"), ("/second.tmp", b"old"), ("/third.tmp", b"old"), ("/chain.txt", b"old")]
+            p.inputs = ["chain.txt"]; p.mode = md; p.sched = [0] * 4
+            cprojs.append(p)
     complete_oracles(cprojs)
     ccases = [p.text() for p in cprojs]
     cimpl = [parse_obs(x) for x in run_impl(ccases)]; cmodel = [parse_obs(x) for x in run_model(ccases)]
@@ -564,6 +574,38 @@ def check_C02(tier_, sd, consts_ok, consts_detail):
         elif (a["verdict"], a["T"], a["F"]) != (b["verdict"], b["T"], b["F"]) and len(violations) < 5:
             violations.append(proj_violation("C02", "--needed run on a tree with older outputs differs from the model", q, a, b, found=False))
     cov["evaluations"] += len(nd); cov["needed_runs_on_older_outputs"] = len(nd)
+    # the dependency directives are the LAST lines of the file (the very last line with and without a final newline): every one of them
+    # must still be registered, also the last one, when the pass is already only collecting dependencies
+    tl = []
+    def tail_expected(edges_, i, memo):
+        if i in memo: return memo[i]
+        tag = NAMES3[i].split("/")[-1].split(".")[0]
+        memo[i] = ("%s-top\nran-%s\n" % (tag, tag)).encode() + b"".join(tail_expected(edges_, j, memo) for (a_, j) in edges_ if a_ == i)
+        return memo[i]
+    for (e_, i_) in canon_graphs(3):
+        if any(can_reach_cycle(v, e_) for v in range(3)) or not e_: continue
+        for final_nl in (True, False):
+            q = Project("tl%d" % len(tl)); q.names = NAMES3; q.edges = list(e_); q.input_idx = list(i_)
+            for i, s_ in enumerate(NAMES3):
+                tag = s_.split("/")[-1].split(".")[0]; pre = itertools.cycle(["-", "=", "+", "~"])
+                L = ["%s-top" % tag, "%sTXTPP#run printf x >> @M@/cnt_%d; printf 'ran-%s\\n'" % (next(pre), i, tag), ""]
+                L += ["%sTXTPP#include %s" % (next(pre), rel_from(s_, gen.out_name(NAMES3[j]))) for (a_, j) in e_ if a_ == i]
+                if L[-1] == "": L = L[:-1]
+                q.files.append((s_, ("\n".join(L) + ("\n" if final_nl else "")).encode())); q.files.append((gen.out_name(s_), b"STALE OUTPUT\n"))
+            q.inputs = [(NAMES3[i] if k_ % 2 else gen.out_name(NAMES3[i])).lstrip("/") for k_, i in enumerate(i_)]
+            q.sched = [(len(tl) * 3 + t) % 4 for t in range(12)]; q.trailing = final_nl or (len(tl) % 2 == 0)
+            tl.append(q)
+    complete_oracles(tl)
+    ti_, tm_ = both(tl)
+    for q, a, b in zip(tl, ti_, tm_):
+        if a["verdict"] == "ok" and b["verdict"] == "ok" and a["F"] != b["F"] and len(violations) < 5:
+            bad_ = sorted(k_ for k_ in set(a["F"]) | set(b["F"]) if a["F"].get(k_) != b["F"].get(k_))
+            stale_ = any(b"STALE" in (a["F"].get(k_) or b"") for k_ in bad_)
+            violations.append(proj_violation("C02", "dependency directives at the end of the file: %s differ from the one-file-at-a-time build%s" % (bad_, " (a STALE dependency output was included)" if stale_ else ""), q, a, b))
+        elif (a["verdict"], a["T"]) != (b["verdict"], b["T"]) and len(violations) < 5:
+            violations.append(proj_violation("C02", "dependency directives at the end of the file: verdict or task trace differ from the model (a dependency was not registered?)", q, a, b,
+                                             found=(a["verdict"] != b["verdict"])))
+    cov["evaluations"] += len(tl); cov["dependency_directives_last_cases"] = len(tl)
     return {"coverage": cov, "violations": violations}
 
 def check_C03(tier_, sd, consts_ok, consts_detail):
@@ -631,7 +673,26 @@ def check_C03(tier_, sd, consts_ok, consts_detail):
             if len(violations) < 5: violations.append(proj_violation("C03", "non-ASCII directive prefix: the run ended with `%s`, commands not run exactly once: %s" % (a["verdict"], bad), q, a, b))
         elif (a["verdict"], a["F"] if a["verdict"] == "ok" else None) != (b["verdict"], b["F"] if b["verdict"] == "ok" else None) and len(violations) < 5:
             violations.append(proj_violation("C03", "non-ASCII directive prefix: verdict/bytes differ from the model", q, a, b, found=False))
-    cov["evaluations"] += len(dprojs) + len(odd); cov["aliased_input_cases"] = len(dprojs); cov["non_ascii_prefix_cases"] = len(odd)
+    # "if it reports success ... its output exists": sources whose output is EMPTY (only temp / after / empty directives, an empty file),
+    # on a tree without outputs and on a cleaned tree, in build and --needed mode
+    empt = []
+    for md in (0, 1):
+        for var in range(3):
+            q = Project("empty%d_%d" % (md, var)); q.mode = md
+            q.files = [("/gen.txtpp", b"-TXTPP#temp data.txt\n-row 1\n-row 2\n"), ("/blank.txtpp", b""), ("/order.txtpp", b"TXTPP#after gen\n"),
+                       ("/main.txt.txtpp", b"top\n-TXTPP#after gen\n=TXTPP#include data.txt\nend\n")]
+            if var == 1: q.files += [("/gen", b""), ("/blank", b"")]            # already there and already right
+            if var == 2: q.files += [("/gen", b"old\n"), ("/order", b"x")]      # stale
+            q.inputs = ["."]; q.recursive = True; q.sched = [(var + t) % 3 for t in range(12)]
+            empt.append(q)
+    ei_, em_ = both(empt, oracle=False)
+    for q, a, b in zip(empt, ei_, em_):
+        missing = [o_ for o_ in ("/gen", "/blank", "/order", "/main.txt") if a["F"].get(o_) is None]
+        if a["verdict"] == "ok" and missing and len(violations) < 5:
+            violations.append(proj_violation("C03", "the run reported success but the outputs %s do not exist (mode %s)" % (missing, "--needed" if q.mode else "build"), q, a, b))
+        elif (a["verdict"], a["F"]) != (b["verdict"], b["F"]) and len(violations) < 5:
+            violations.append(proj_violation("C03", "empty-output sources: verdict/bytes differ from the model", q, a, b, found=False))
+    cov["evaluations"] += len(dprojs) + len(odd) + len(empt); cov["aliased_input_cases"] = len(dprojs); cov["non_ascii_prefix_cases"] = len(odd); cov["empty_output_cases"] = len(empt)
     xcheck(cov, violations, "C03", dprojs, dm)
     return {"coverage": cov, "violations": violations}
 
@@ -681,6 +742,23 @@ def check_C05(tier_, sd, consts_ok, consts_detail):
         elif (a["verdict"], a["F"]) != (b["verdict"], b["F"]) and len(violations) < 5:
             violations.append(proj_violation("C05", "verify/--needed run on a planted tree differs from the model", q, a, b, found=False))
     cov["verify_and_needed_mode_runs"] = len(vm); cov["verify_and_needed_mode_runs_with_cycle"] = nvm
+    # an output with TWO sources (NAME.EXT.txtpp and NAME.txtpp.EXT) and a third file that includes it, every input order and
+    # completion order: no cycle exists, so no circular-dependency failure may be reported and the includer is built
+    two = []
+    for k_, inp in enumerate([["greeting.txt.txtpp", "greeting.txtpp.txt", "page.md.txtpp"], ["greeting.txtpp.txt", "greeting.txt.txtpp", "page.md"], ["page.md", "greeting.txtpp.txt"],
+                              ["greeting.txtpp.txt", "page.md.txtpp"], ["."], ["page.md.txtpp"]]):
+        for sc in range(4):
+            q = Project("two%d_%d" % (k_, sc))
+            q.files = [("/greeting.txt.txtpp", b"hello from ext.txtpp\n"), ("/greeting.txtpp.txt", b"hello from txtpp.ext\n"), ("/page.md.txtpp", b"top\n-TXTPP#include greeting.txt\nend\n")]
+            q.inputs = inp; q.sched = [(sc * 3 + t * (sc + 1)) % 4 for t in range(12)]
+            two.append(q)
+    wi_, wm_ = both(two, oracle=False)
+    for q, a, b in zip(two, wi_, wm_):
+        if a["verdict"] != "ok" and b["verdict"] == "ok" and len(violations) < 5:
+            violations.append(proj_violation("C05", "a project without cycles (two sources of one output, one includer) failed", q, a, b))
+        elif (a["verdict"], sorted(trace_list(a))) != (b["verdict"], sorted(trace_list(b))) and len(violations) < 5:
+            violations.append(proj_violation("C05", "two sources of one output: verdict or processed set differ from the model", q, a, b, found=False))
+    cov["two_sources_one_output_runs"] = len(two)
     xcheck(cov, violations, "C05", [q for (_, q, _) in runs[::131]], mouts[::131], limit=2)
     return {"coverage": cov, "violations": violations}
 
@@ -990,12 +1068,29 @@ def check_C12(tier_, sd, consts_ok, consts_detail):
                 if le_of_source(fm2[s_]) == b"\n": c = c.replace(b"\n", b"\r\n")
                 fm2[s_] = c
             q.files = sorted(fm2.items()); flips.append(q); p0_files[q.id] = p.files
+    # ... and the other way round: only the OUTPUTS were converted (the sources keep their endings), then verify runs - it fails, but the temp
+    # files it rewrites on the way must still follow the SOURCE's first line, not the output's
+    for p, a in list(zip(projs, oi))[: 120 if tier_ == "quick" else 3000]:
+        if a["verdict"] != "ok" or not any(k_.endswith(".tmp") or "_t" in k_.rsplit("/", 1)[-1] for k_ in generated_paths(p, a)): continue
+        q = follow(p, a, "%s.oflip" % p.id); q.mode = 3; q.cmds = p.cmds
+        fm2 = dict(q.files)
+        for s_ in p.srcs:
+            o_ = gen.out_name(s_)
+            if fm2.get(o_) is None: continue
+            c = fm2[o_].replace(b"\r\n", b"\n")
+            if le_of_source(fm2[s_]) == b"\n": c = c.replace(b"\n", b"\r\n")
+            fm2[o_] = c
+        # the temp files are removed so that verify has to write them again
+        for k_ in generated_paths(p, a):
+            if k_ not in {gen.out_name(s_) for s_ in p.srcs}: fm2.pop(k_, None)
+        q.files = sorted(fm2.items()); flips.append(q); p0_files[q.id] = p.files
     fi_, fm_ = both(flips)
     for q, a, b in zip(flips, fi_, fm_):
         srcmap = {gen.out_name(s_): s_ for s_ in q.srcs}; fmq = dict(q.files); bad = None
         for path in [k_ for k_, v_ in a["F"].items() if v_ is not None and not k_.endswith(".txtpp") and ".txtpp." not in k_]:
             data = a["F"][path]
             src = srcmap.get(path)
+            if src is not None and q.mode == 3: continue       # verify does not write outputs: what lies there was planted
             if src is None:
                 stem = path.rsplit("/", 1)[1].split("_")[0]
                 cands = [s_ for s_ in q.srcs if s_.rsplit("/", 1)[1].split(".")[0] == stem]
@@ -1005,7 +1100,7 @@ def check_C12(tier_, sd, consts_ok, consts_detail):
             if not le_uniform(le, data): bad = (path, src, data)
             else: classes[("CRLF" if le == b"\r\n" else "LF") + "/after-flip/ok"] += 1
         if bad and len(violations) < 5:
-            violations.append(proj_violation("C12", "after only the line endings of %s changed, the rebuilt %s keeps the old terminators (mode %s)" % (bad[1], bad[0], "needed" if q.mode == 1 else "build"), q, a, b,
+            violations.append(proj_violation("C12", "after only the line endings of %s changed, the rebuilt %s keeps the old terminators (mode %s)" % (bad[1], bad[0], {1: "needed", 0: "build", 3: "verify"}[q.mode]), q, a, b,
                                              extra={"bytes": repr(bad[2][:200])}))
         elif (a["verdict"], a["F"]) != (b["verdict"], b["F"]) and len(violations) < 5:
             violations.append(proj_violation("C12", "after a line-ending flip of the sources the rebuilt tree differs from the model", q, a, b, found=False))
@@ -1069,6 +1164,7 @@ def check_C16(tier_, sd, consts_ok, consts_detail):
                         "TXTPP#", "TXTPP# text", "TXTPP#write w", "TXTPP#tag TAG1", "TXTPP#temp f", "+TXTPP#", "TXTPP#after a", "TXTPP#run"]) for _ in range(1 + r.below(5))]
         ls[0] = ls[0].lstrip() or "first"
         ls = [l.rstrip() for l in ls]
+        if k % 5 == 2: ls = [""] * (1 + k % 2) + ls       # the written text begins with blank line(s): the first argument of `write` is empty
         le = r.choice(["\n", "\r\n"])
         cont = "+" if k % 2 else " "            # continuation lines repeat the prefix, or use as many spaces (a blank content line is then a line of spaces)
         body = ["+TXTPP#write " + ls[0]] + [cont + l for l in ls[1:]]
@@ -1181,6 +1277,7 @@ def check_C14(tier_, sd, consts_ok, consts_detail):
         L = ["    -TXTPP#tag NAME"]
         for _ in range(r.below(3)):
             L.append(r.choice(["    =TXTPP#temp t%d.tmp\n    =body" % r.below(2), "    +TXTPP#", "    ~TXTPP#after inc.txt", "    ~TXTPP#tag OTHER"]))
+        if r.chance(1, 4): L.append(r.choice(["    =TXTPP#run true", "    =TXTPP#run printf ''", "    =TXTPP#run printf 'one line\\n'"]))     # a command that prints NOTHING still feeds the waiting tag
         L.append(r.choice(["    /TXTPP#write stored line", "    /TXTPP#include inc.txt", "    /TXTPP#write two\n    /lines\n    /", "text in between"]))
         L.append(r.choice(["a NAME b", "NAME NAME", "no use", "  indented NAME", "xNAMEy NAME"]))
         if r.chance(1, 3): L.append("late NAME")
@@ -1191,7 +1288,8 @@ def check_C14(tier_, sd, consts_ok, consts_detail):
             p.files = [p.files[0], ("/inc.txt.txtpp", r.choice([b"gen inc\n", b"g1\r\ng2\r\n", b"-TXTPP#write NAME in a dependency\n"]))]
         p.inputs = ["s.txt"]; p.sched = [r.below(2) for _ in range(6)]
         projs.append(p)
-    oi, om = both(projs, oracle=False)
+    complete_oracles(projs)
+    oi, om = both(projs)
     pbad = [j for j in range(len(projs)) if (oi[j]["verdict"], oi[j]["F"] if oi[j]["verdict"] == "ok" else None) != (om[j]["verdict"], om[j]["F"] if om[j]["verdict"] == "ok" else None)]
     violations = []
     for kk in bad[:5]:
@@ -1393,6 +1491,18 @@ def check_C07(tier_, sd, consts_ok, consts_detail):
         p.srcs = [src]; p.deps = {src: []}; p.inputs = ["."]; p.recursive = True; p.mode = 2; p.sched = [0] * 6
         p.stats = collections.Counter({"clean-hard:project": 1})
         hard.append(p)
+    # text that LOOKS like a temp directive but is the content of a write / run / temp / empty block (the documented escape): clean must not
+    # take it for a directive and delete the hand-written file it names; a temp directive directly after another directive is still cleaned
+    look = []
+    for k_, blk in enumerate(["write", "run printf '%s\\n'", "temp real%d.g", ""]):
+        for form in ("-", " "):
+            q = Project("look%d%s" % (k_, "p" if form == "-" else "s")); blk_ = blk % k_ if "%d" in blk else blk
+            L = ["top", "-TXTPP#%s" % blk_, "%s// TXTPP#temp gen.py" % form, "%sTXTPP#temp notes.txt" % form, "%s x" % form, "", "=TXTPP#tag T", "+TXTPP#temp direct%d.tmp" % k_, "+d", "~TXTPP#temp second%d.tmp" % k_, "~s", "", "T end"]
+            q.files = [("/manual.md.txtpp", ("\n".join(L) + "\n").encode()), ("/gen.py", b"hand written\n"), ("/notes.txt", b"my notes\n"),
+                       ("/direct%d.tmp" % k_, b"d"), ("/second%d.tmp" % k_, b"s"), ("/manual.md", b"old output\n")] + ([("/real%d.g" % k_, b"old")] if "real" in blk_ else [])
+            q.srcs = ["/manual.md.txtpp"]; q.inputs = ["."]; q.mode = 2; q.sched = [0] * 4
+            look.append(q)
+    ki, km = both(look, oracle=False)
     hi, hm = both(hard, oracle=False)
     ci, cm = both(cl, oracle=False)
     violations = []; nrest = 0; nontriv = set()
@@ -1416,6 +1526,16 @@ def check_C07(tier_, sd, consts_ok, consts_detail):
             nontriv.add(tuple(sorted(set(k for k, v in a["F"].items() if v is not None) - set(init))))
         if (c["verdict"], c["F"], c["U"]) != (m["verdict"], m["F"], m["U"]) and len(violations) < 5:
             violations.append(proj_violation("C07", "clean differs from the model (tree or touched set)", q, c, m, found=False))
+    look_ok = 0
+    for q, c, m in zip(look, ki, km):
+        after = {k_: v_ for k_, v_ in c["F"].items() if v_ is not None}
+        gone = [f_ for f_ in ("/gen.py", "/notes.txt") if after.get(f_) != dict(q.files)[f_]]
+        left = [f_ for f_ in after if f_.endswith(".tmp") or f_ == "/manual.md" or f_.endswith(".g")]
+        if (c["verdict"] != "ok" or gone or left) and len(violations) < 5:
+            violations.append(proj_violation("C07", "clean and directive look-alikes inside a block: verdict %s, hand-written files removed or changed %s, generated files left %s" % (c["verdict"], gone, left), q, c, m))
+        elif (c["verdict"], c["F"], c["U"]) != (m["verdict"], m["F"], m["U"]) and len(violations) < 5:
+            violations.append(proj_violation("C07", "clean differs from the model (tree or touched set)", q, c, m, found=False))
+        else: look_ok += 1
     nodel_ok = 0
     for (p, q), c, m in zip(nodel, ni_, nm_):
         init = dict(p.files); after = {k_: v_ for k_, v_ in c["F"].items() if v_ is not None}
@@ -1434,7 +1554,7 @@ def check_C07(tier_, sd, consts_ok, consts_detail):
         elif (c["verdict"], c["F"], c["U"]) != (m["verdict"], m["F"], m["U"]) and len(violations) < 5:
             violations.append(proj_violation("C07", "clean differs from the model (tree or touched set)", p, c, m, found=False))
         else: hard_ok += 1
-    cov = {"evaluations": 2 * len(projs) + len(hard) + len(nodel), "distinct_nontrivial": len(nontriv), "clean_with_unhonourable_temp_directives_ok": hard_ok, "clean_after_outputs_deleted_ok": nodel_ok,
+    cov = {"evaluations": 2 * len(projs) + len(hard) + len(nodel) + len(look), "distinct_nontrivial": len(nontriv), "clean_with_unhonourable_temp_directives_ok": hard_ok, "clean_after_outputs_deleted_ok": nodel_ok, "clean_lookalike_blocks_ok": look_ok,
            "rule": "generated projects (erroneous directives included, counting commands with marker files; plus projects whose temp targets lie in sub-directories, parent directories and outside the base directory) are built, then cleaned with the same inputs (whole tree, recursive); "
                    "checked on the implementation: clean succeeds, writes no marker (runs nothing), deletes no .txtpp, leaves every non-generated file byte-identical, and after a successful build restores the tree exactly; "
                    "distinct_nontrivial = distinct sets of generated paths that clean had to remove",
@@ -1786,6 +1906,12 @@ def check_C11(tier_, sd, consts_ok, consts_detail):
                 o = run_model_name(f)
                 if o: cands.append((o.lstrip("/") if p.base == "/" else (o.lstrip("/")[4:] if o.startswith("/sub/") else "../" + o.lstrip("/"))))
         p.inputs = [r.choice(cands) for _ in range(1 + r.below(4))]
+        if k % 4 == 1:
+            # the same file named several ways is processed once in EVERY mode: clean (no dependency pass), verify, --needed
+            p.mode = [2, 2, 3, 1][(k // 4) % 4]
+            f0 = r.choice([f for f in placed if f.endswith(".txtpp") or ".txtpp." in f] or placed)
+            rel0 = f0.lstrip("/") if p.base == "/" else (f0.lstrip("/")[4:] if f0.startswith("/sub/") else "../" + f0.lstrip("/"))
+            p.inputs = p.inputs + [rel0, "./" + rel0, rel0]
         p.sched = [r.below(6) for _ in range(40)]
         projs.append(p)
     oi, om = both(projs, oracle=False)
@@ -2057,6 +2183,21 @@ def check_C18(tier_, sd, consts_ok, consts_detail):
     mpanic = [p for p, o in zip(mp, mo) if o["verdict"] not in ("ok", "err")]
     for p in mpanic[:2]:
         violations.append({"found": False, "replay": {"property": "C18", "broken": "the model itself reports a panic/fuel exhaustion: theorem pp_run_no_panic / run_loop_no_panic no longer describes it", "project": p.to_json()}})
+    # tag injection slices the line at offsets computed from several searches: overlapping tags, repeated occurrences, occurrences inside
+    # and right after an injected region, multi-byte neighbours
+    tagp = []
+    for k_, (t1, t2, line) in enumerate([("AB", "BC", "xxxxABC BC"), ("AB", "BC", "ABC"), ("AB", "BC", "BCABC BC AB"), ("ab", "bcd", "abcd bcd abcd"), ("Té", "éX", "TéX éX Té"),
+                                         ("AAA", "AAB", "AAAB AAB AAA"), ("AB", "BA", "ABA BAB ABAB"), ("X", "YXZ", "YXZ X YXZ"), ("AB", "BC", "é ABC é BC é"), ("ab", "bc", "a" * 40 + "abc" + "b" * 40 + "bc")]):
+        for md in (0, 3):
+            q = Project("tagov%d_%d" % (k_, md))
+            q.files = [("/s.txt.txtpp", ("-TXTPP#tag %s\n=TXTPP#write one\n-TXTPP#tag %s\n=TXTPP#write two\n%s\n%s %s\n" % (t1, t2, line, t1, t2)).encode())]
+            q.inputs = ["s.txt"]; q.mode = md; q.sched = [0] * 4; q.threads = 2
+            tagp.append(q)
+    gi_, gm_ = both(tagp, oracle=False)
+    for q, a, b in zip(tagp, gi_, gm_):
+        if a["verdict"] in ("hang", "panic") or (b["verdict"] in ("ok", "err") and a["verdict"] != b["verdict"]):
+            if len(violations) < 5: violations.append(proj_violation("C18", "overlapping tags with repeated occurrences: the run ended with `%s` (model: %s)" % (a["verdict"], b["verdict"]), q, a, b, found=a["verdict"] in ("hang", "panic")))
+        cls["tag-overlap/" + a["verdict"]] += 1
     # the binary: option values including zero threads
     cli = []
     import tempfile
@@ -2096,7 +2237,7 @@ def check_C18(tier_, sd, consts_ok, consts_detail):
                                    "how": "`-TXTPP#run head -c 300000 /dev/zero | tr '\\0' x` (stdout), the same on stderr, and a failing command writing to both"}})
     finally:
         shutil.rmtree(d, ignore_errors=True)
-    cov = {"evaluations": len(projs) + len(cli), "distinct_nontrivial": len(nontriv), "systematic_continuation_cases": kk,
+    cov = {"evaluations": len(projs) + len(cli) + len(tagp), "distinct_nontrivial": len(nontriv), "systematic_continuation_cases": kk, "overlapping_tag_cases": len(tagp),
            "rule": "robustness stream OUTSIDE the documented domain: random bytes, invalid UTF-8, NUL, lone CR, huge and empty lines, directive lines whose continuation candidates are cut inside multi-byte characters, grammar-aware sources; "
                    "pre-existing generated files with arbitrary bytes; four modes; 0-16 threads; recursive on/off; controlled and free scheduling; any-thread panic hook + 8 s watchdog in the harness; CLI with -j 0 in every mode; "
                    "observation = {ok, err, panic, hang}; distinct_nontrivial = distinct (verdict, mode, source hash)",
@@ -2240,7 +2381,16 @@ def check_C04(tier_, sd, consts_ok, consts_detail):
                 violations.append({"found": True, "replay": {"property": "C04", "what": "abnormal end (%s) under fault %s" % (rc, case)}})
     finally:
         subprocess.run(["chmod", "-R", "u+w", d]); shutil.rmtree(d, ignore_errors=True)
-    cov = {"evaluations": len(projs) + len(firsts) + len(cli) + len(tails), "distinct_nontrivial": len(nontriv), "sources_ending_without_text": len(tails),
+    # the binary: a verify that finds a stale output fails whatever top-level flags precede the subcommand (a `-N` there must not turn it
+    # into a build that repairs the file and reports success)
+    vs = cli_session({"leaf.txt.txtpp": "leaf\n", "leaf.txt": "TAMPERED\n", "root.txt.txtpp": "r\n-TXTPP#include leaf.txt\n", "root.txt": "r\nleaf\n"},
+                     [["verify", "-q"], ["-q", "verify", "-q", "-j", "1"], ["-N", "verify", "-q"], ["--needed", "-q", "verify", "-q", "root.txt"], ["-N", "-n", "verify", "-q", "leaf.txt"]])
+    vs_ok = [x[0] == 1 and x[1].get("leaf.txt") == b"TAMPERED\n" and x[1].get("root.txt") == b"r\nleaf\n" for x in vs]
+    if not all(vs_ok):
+        violations.append({"found": True, "replay": {"property": "C04", "what": "FALSE SUCCESS: `txtpp [flags] verify` on a tree with a tampered output did not fail, or changed a file",
+                           "steps": "verify; -q verify -j 1; -N verify; --needed -q verify root.txt; -N -n verify leaf.txt", "steps_ok": vs_ok, "exits": [x[0] for x in vs],
+                           "leaf.txt_after_each": [short(x[1].get("leaf.txt")) for x in vs]}})
+    cov = {"evaluations": len(projs) + len(firsts) + len(cli) + len(tails) + len(vs), "distinct_nontrivial": len(nontriv), "sources_ending_without_text": len(tails), "cli_verify_steps_ok": vs_ok,
            "rule": "fault matrix: {prefix-less multi-line directive, failing command, missing include, include of a directory, output path occupied by a directory, temp target is a directory, temp target ending in .txtpp, "
                    "unused tag, tag while listening, invalid UTF-8 line, verify mismatch} x position {root, middle, leaf, unrelated file} x graph shape {chain, diamond, two components, independent} x random controlled schedule, "
                    "through the library; the binary under real OS faults (output -> /dev/full small and large, RLIMIT_FSIZE with SIGXFSZ ignored, read-only directory); "
